@@ -6,6 +6,7 @@ import (
 	"go/constant"
 	"go/token"
 	"go/types"
+	"os"
 	"sort"
 	"strings"
 
@@ -30,6 +31,7 @@ func init() {
 			{ID: "R9", Desc: "IN and BETWEEN: the left operand is only compared once it is known to be defined (T-DOM)", Run: c06R9},
 			{ID: "R10", Desc: "the request's values are loaded into the environment after the item: a placeholder is never shadowed by a stored attribute of the same name (T-DOM)", Run: c06R10},
 			{ID: "R11", Desc: "an operand keeps its type on the way into the engine: every SDK member case sets its own type field for every value (= C10.R7b)", Run: aliasRule("R11", c10R7, func(c string) bool { return strings.HasPrefix(c, "v2.") })},
+			{ID: "R12", Desc: "the comparator functions receive the evaluated left operand of the parsed comparison on the left and the right one on the right (T-FLOW, eval-of)", Run: c06R12},
 		},
 	})
 }
@@ -228,14 +230,45 @@ func (e *Engine) closuresOf(v ssa.Value, ctx []callCtx, depth int) []*ssa.Functi
 	v = strip(v)
 	switch x := v.(type) {
 	case *ssa.MakeClosure:
+		var out []*ssa.Function
 		if f := e.unwrap(x.Fn.(*ssa.Function)); f != nil {
-			return []*ssa.Function{f}
+			out = append(out, f)
 		}
+		// functions composed into the closure: a function-typed binding is what the closure goes on to call
+		for _, b := range x.Bindings {
+			bv := bindingValue(b)
+			if _, isSig := bv.Type().Underlying().(*types.Signature); isSig {
+				out = append(out, e.closuresOf(bv, ctx, depth+1)...)
+			}
+		}
+		return out
 	case *ssa.Function:
 		return []*ssa.Function{x}
 	case *ssa.Parameter:
 		if rv, rctx := resolveParam(x, ctx); rv != ssa.Value(x) {
 			return e.closuresOf(rv, rctx, depth+1)
+		}
+	case *ssa.UnOp:
+		// a package-level function variable: whatever is stored into it (by the package initialiser or later)
+		if g, ok := x.X.(*ssa.Global); ok && x.Op == token.MUL {
+			var out []*ssa.Function
+			for _, st := range e.globalStores(g) {
+				out = append(out, e.closuresOf(st.Val, nil, depth+1)...)
+			}
+			return out
+		}
+	case *ssa.Call:
+		// the result of a function-building helper: what it returns, in the context of this call
+		if m := x.Call.StaticCallee(); m != nil && m.Blocks != nil {
+			var out []*ssa.Function
+			for _, r := range returnsOf(m) {
+				for _, rv := range retVals(r) {
+					if _, isSig := rv.Type().Underlying().(*types.Signature); isSig {
+						out = append(out, e.closuresOf(rv, append(append([]callCtx{}, ctx...), callCtx{x, m}), depth+1)...)
+					}
+				}
+			}
+			return out
 		}
 	case *ssa.Phi:
 		var out []*ssa.Function
@@ -245,6 +278,74 @@ func (e *Engine) closuresOf(v ssa.Value, ctx []callCtx, depth int) []*ssa.Functi
 		return out
 	}
 	return nil
+}
+
+// globalStores: every store to the package-level variable g (the package initialiser included).
+func (e *Engine) globalStores(g *ssa.Global) []*ssa.Store {
+	var out []*ssa.Store
+	scan := append([]*ssa.Function{}, e.all...)
+	for _, sp := range e.SSA {
+		if f := sp.Func("init"); f != nil {
+			scan = append(scan, f)
+		}
+	}
+	seen := map[*ssa.Function]bool{}
+	for _, fn := range scan {
+		if seen[fn] {
+			continue
+		}
+		seen[fn] = true
+		instrs(fn, func(in ssa.Instruction) {
+			if st, ok := in.(*ssa.Store); ok && st.Addr == ssa.Value(g) {
+				out = append(out, st)
+			}
+		})
+	}
+	return out
+}
+
+// builtinImpls: the functions that implement the built-in registered under `key` in the evaluator's function table: the
+// function value stored in the entry, resolved through function variables and function-building helpers (the returned
+// closure and the functions composed into it).
+func (e *Engine) builtinImpls(key string) []*ssa.Function {
+	init := e.SSA["lang"].Func("init")
+	if init == nil {
+		return nil
+	}
+	var out []*ssa.Function
+	seen := map[*ssa.Function]bool{}
+	instrs(init, func(in ssa.Instruction) {
+		mu, ok := in.(*ssa.MapUpdate)
+		if !ok {
+			return
+		}
+		k, isK := constString(mu.Key)
+		if !isK || k != key {
+			return
+		}
+		nt := namedOf(mu.Value.Type())
+		if nt == nil || nt.Obj().Name() != "Function" {
+			return
+		}
+		for _, r := range refsOf(strip(mu.Value)) {
+			fa, ok := r.(*ssa.FieldAddr)
+			if !ok || fieldOf(fa) == nil || fieldOf(fa).Name() != "Value" {
+				continue
+			}
+			for _, r2 := range refsOf(fa) {
+				if st, ok := r2.(*ssa.Store); ok {
+					for _, f := range e.closuresOf(st.Val, nil, 0) {
+						if !seen[f] {
+							seen[f] = true
+							out = append(out, f)
+						}
+					}
+				}
+			}
+		}
+	})
+	sort.Slice(out, func(i, j int) bool { return e.fname(out[i]) < e.fname(out[j]) })
+	return out
 }
 
 func c06R1(e *Engine) {
@@ -596,6 +697,137 @@ func c06R2(e *Engine) {
 	}
 }
 
+// c06R12: the value compared on the left of a comparator is the evaluated LEFT operand of the parsed comparison (and the
+// right one the right operand), from the node built by the parser to the parameters of the comparator functions.
+func c06R12(e *Engine) {
+	cfs := e.comparatorFunctions()
+	var fns []*ssa.Function
+	for f := range cfs {
+		fns = append(fns, f)
+	}
+	sort.Slice(fns, func(i, j int) bool { return e.fname(fns[i]) < e.fname(fns[j]) })
+	c06R12parser(e)
+	for _, fn := range fns {
+		var others []*ssa.Parameter
+		for _, p := range fn.Params {
+			if p != cfs[fn] {
+				others = append(others, p)
+			}
+		}
+		if len(others) != 2 {
+			continue
+		}
+		o0, o1 := e.originsEval(others[0]), e.originsEval(others[1])
+		if os.Getenv("MINICHECK_TRACE") != "" {
+			fmt.Println("TRACE operand-flow", e.fname(fn), "o0=", o0, "o1=", o1)
+		}
+		has := func(list []string, side string) bool {
+			for _, o := range list {
+				if strings.Contains(o, "eval-of") && strings.Contains(o, "InfixExpression."+side) {
+					return true
+				}
+			}
+			return false
+		}
+		construct := e.fname(fn) + ":operand-flow"
+		switch {
+		case has(o0, "Right") || has(o1, "Left"):
+			e.fail("R12", construct, e.pos(fn.Pos()), "the left parameter of the comparator receives the evaluated RIGHT operand of the comparison node (or the right one the left): `a < b` is decided as `b < a`")
+		case !has(o0, "Left") || !has(o1, "Right"):
+			e.undecided("R12", construct, e.pos(fn.Pos()), "the operands of the comparator could not be traced back to the evaluated Left/Right fields of the comparison node (left: %v, right: %v)", o0, o1)
+		default:
+			e.pass("R12", construct, e.pos(fn.Pos()), "left parameter ← Eval(node.Left), right parameter ← Eval(node.Right)")
+		}
+	}
+	e.minCount("R12", 5)
+}
+
+// c06R12parser: the parser side of the operand flow. The node of a binary operator takes the expression parsed BEFORE the
+// operator (the handler's parameter) as Left and the expression parsed after it (a parse call's result) as Right.
+func c06R12parser(e *Engine) {
+	var classify func(v ssa.Value, depth int, out map[string]bool)
+	classify = func(v ssa.Value, depth int, out map[string]bool) {
+		v = strip(v)
+		if depth > 6 {
+			out["?"] = true
+			return
+		}
+		switch x := v.(type) {
+		case *ssa.Parameter:
+			idx := -1
+			for i, p := range x.Parent().Params {
+				if p == x {
+					idx = i
+				}
+			}
+			static := 0
+			for _, c := range e.callersOf(x.Parent()) {
+				if c.Common().StaticCallee() == x.Parent() && idx < len(c.Common().Args) {
+					static++
+					classify(c.Common().Args[idx], depth+1, out)
+				}
+			}
+			if static == 0 {
+				out["already-parsed"] = true // the handler's own parameter: the expression to the left of the operator
+			}
+		case *ssa.Phi:
+			for _, ed := range x.Edges {
+				classify(ed, depth+1, out)
+			}
+		case *ssa.Call:
+			out["parsed-after"] = true
+		case *ssa.Extract:
+			classify(x.Tuple, depth+1, out)
+		case *ssa.Const:
+			out["nil"] = true
+		default:
+			out["?"] = true
+		}
+	}
+	n := 0
+	for _, fn := range e.funcs("lang") {
+		instrsDeep(fn, func(in ssa.Instruction) {
+			st, ok := in.(*ssa.Store)
+			if !ok {
+				return
+			}
+			fa, ok := st.Addr.(*ssa.FieldAddr)
+			if !ok {
+				return
+			}
+			nt := namedOf(fa.X.Type())
+			fv := fieldOf(fa)
+			if nt == nil || nt.Obj().Name() != "InfixExpression" || fv == nil {
+				return
+			}
+			name := fv.Name()
+			if name != "Left" && name != "Right" {
+				return
+			}
+			got := map[string]bool{}
+			classify(st.Val, 0, got)
+			delete(got, "nil")
+			want, other := "already-parsed", "parsed-after"
+			if name == "Right" {
+				want, other = other, want
+			}
+			construct := e.fname(fn) + ":node." + name
+			n++
+			switch {
+			case got[other]:
+				e.fail("R12", construct, e.ipos(in), "the %s operand of the binary node is the expression %s the operator: the operands of every comparison are swapped", name, map[string]string{"already-parsed": "parsed before", "parsed-after": "parsed after"}[other])
+			case got["?"] || !got[want]:
+				e.undecided("R12", construct, e.ipos(in), "the value stored as the %s operand is neither the handler's parameter nor a parse result", name)
+			default:
+				e.pass("R12", construct, e.ipos(in), "%s operand ← %s", name, want)
+			}
+		})
+	}
+	if n < 2 {
+		e.fail("R12", "count:R12-parser", "-", "only %d operand stores of the binary node found in the parser", n)
+	}
+}
+
 func c06R3(e *Engine) {
 	cfs := e.comparatorFunctions()
 	// the range function: calls a comparator twice with "<=" and combines with "AND"
@@ -892,21 +1124,24 @@ func c06R5(e *Engine) {
 	}
 	// the existence functions use the undefined test
 	und := e.fn("lang", "isUndefined")
-	for _, name := range []string{"attributeExists", "attributeNotExists", "ifNotExists"} {
-		fn := e.fn("lang", name)
-		if !e.anchor("R5", "lang."+name, fn == nil) {
+	for _, ent := range [][2]string{{"attribute_exists", "attributeExists"}, {"attribute_not_exists", "attributeNotExists"}, {"if_not_exists", "ifNotExists"}} {
+		name := ent[1]
+		impls := e.builtinImpls(ent[0])
+		if !e.anchor("R5", "lang."+name, len(impls) == 0) {
 			continue
 		}
 		uses := false
-		instrs(fn, func(in ssa.Instruction) {
-			if c, ok := in.(*ssa.Call); ok && c.Call.StaticCallee() == und && und != nil {
-				uses = true
-			}
-			if fa, ok := in.(*ssa.FieldAddr); ok && fieldOf(fa).Name() == "IsUndefined" {
-				uses = true
-			}
-		})
-		e.check(uses, "R5", "lang."+name+":uses-undefined-test", e.pos(fn.Pos()), "existence decided with the undefined test")
+		for _, fn := range impls {
+			instrsDeep(fn, func(in ssa.Instruction) {
+				if c, ok := in.(*ssa.Call); ok && c.Call.StaticCallee() == und && und != nil {
+					uses = true
+				}
+				if fa, ok := in.(*ssa.FieldAddr); ok && fieldOf(fa).Name() == "IsUndefined" {
+					uses = true
+				}
+			})
+		}
+		e.check(uses, "R5", "lang."+name+":uses-undefined-test", e.pos(impls[0].Pos()), "existence decided with the undefined test (function registered as %s: %s)", ent[0], e.fname(impls[0]))
 	}
 	if n == 0 {
 		e.pass("R5", "no-NULL-tag-existence-test", "-", "no function of the evaluator decides existence by the NULL type tag")
